@@ -44,7 +44,17 @@ type substRule struct {
 	To   string // expression using verifrt_ as package name; for methods a function taking the receiver first
 }
 
+// transplant presents a (rewritten) source file of a `package main` plugin as
+// a file of a harness package under another package name, so that the
+// plugin's unexported handlers can be driven in-package.
+type transplant struct {
+	Src string // path relative to the repository, e.g. cmd/plugins/memory-qos/main.go
+	Dst string // absolute path of the (non-existing) file in the harness package
+	Pkg string // new package name
+}
+
 type config struct {
+	Transplants []transplant
 	Repo     string
 	Out      string
 	Overlay  string   // /verif/overlay
@@ -71,11 +81,22 @@ func main() {
 	flag.StringVar(&syncs, "sync", "", "comma-separated package paths (relative) whose sync points are rewritten")
 	flag.StringVar(&substFile, "subst", "", "JSON file with substitution rules")
 	flag.BoolVar(&cfg.Report, "report", false, "print a report of rewritten sites")
+	var transplants string
+	flag.StringVar(&transplants, "transplant", "", "comma-separated src:dst:pkg triples")
 	flag.Parse()
 	if cfg.Out == "" || pats == "" {
 		fatalf("usage: verifgen -out DIR -pkgs PATTERNS")
 	}
 	cfg.Patterns = strings.Split(pats, ",")
+	if transplants != "" {
+		for _, t := range strings.Split(transplants, ",") {
+			f := strings.Split(t, ":")
+			if len(f) != 3 {
+				fatalf("bad -transplant entry %q", t)
+			}
+			cfg.Transplants = append(cfg.Transplants, transplant{Src: f[0], Dst: f[1], Pkg: f[2]})
+		}
+	}
 	if syncs != "" {
 		cfg.SyncPkgs = strings.Split(syncs, ",")
 	}
@@ -134,6 +155,7 @@ func run(cfg *config) error {
 	}
 	st := &stats{KeyTypes: map[string]int{}}
 	overlay := map[string]string{}
+	transplanted := map[string]bool{}
 	syncSet := map[string]bool{}
 	for _, s := range cfg.SyncPkgs {
 		syncSet[modPrefix+strings.TrimPrefix(s, "./")] = true
@@ -152,6 +174,40 @@ func run(cfg *config) error {
 			changed, err := rw.rewrite()
 			if err != nil {
 				return fmt.Errorf("%s: %w", fname, err)
+			}
+			rel0 := strings.TrimPrefix(fname, cfg.Repo+"/")
+			for _, t := range cfg.Transplants {
+				if t.Src != rel0 {
+					continue
+				}
+				// print a copy under the new package name with main renamed
+				oldName := f.Name.Name
+				f.Name.Name = t.Pkg
+				for _, d := range f.Decls {
+					if fd, ok := d.(*ast.FuncDecl); ok && fd.Recv == nil && fd.Name.Name == "main" {
+						fd.Name.Name = "verifOrigMain"
+					}
+				}
+				var tb bytes.Buffer
+				if err := format.Node(&tb, fset, f); err != nil {
+					return fmt.Errorf("%s: print transplant: %w", fname, err)
+				}
+				f.Name.Name = oldName
+				for _, d := range f.Decls {
+					if fd, ok := d.(*ast.FuncDecl); ok && fd.Recv == nil && fd.Name.Name == "verifOrigMain" {
+						fd.Name.Name = "main"
+					}
+				}
+				tdst := filepath.Join(cfg.Out, "transplant", t.Pkg+"_"+filepath.Base(t.Src))
+				if err := os.MkdirAll(filepath.Dir(tdst), 0o755); err != nil {
+					return err
+				}
+				hdr := "//go:build verif\n\n// Code generated by verifgen from " + t.Src + "; DO NOT EDIT.\n\n"
+				if err := os.WriteFile(tdst, append([]byte(hdr), tb.Bytes()...), 0o644); err != nil {
+					return err
+				}
+				overlay[t.Dst] = tdst
+				transplanted[t.Src] = true
 			}
 			if !changed {
 				continue
@@ -212,6 +268,11 @@ func run(cfg *config) error {
 		})
 		if err != nil {
 			return err
+		}
+	}
+	for _, t := range cfg.Transplants {
+		if !transplanted[t.Src] {
+			return fmt.Errorf("transplant source %s not found among the loaded packages", t.Src)
 		}
 	}
 	ov := struct{ Replace map[string]string }{overlay}
